@@ -642,7 +642,7 @@ def name_universe(ctx, quick):
 ARG_POOL_TEXT = ['{ UNIT }', '{ DROP }', '{ }', '{ PUSH string "q" ; PAIR }']
 # code arguments made of one primitive that expansions themselves emit
 ONE_PRIM_ARGS = ['{ DIP { DROP } }', '{ DIP 1 { UNIT } }', '{ DIP 2 { DROP } }', '{ { DIP { DROP } } }', '{ DIP { DROP } ; SWAP }', '{ DUP }', '{ SWAP }',
-                 '{ PAIR }', '{ CAR }', '{ IF { UNIT } { DROP } }', '{ DIP { DIP { UNIT } } }', '{ FAILWITH }', '{ COMPARE }', '{ EQ }', '{ { } }']
+                 '{ PAIR }', '{ CAR }', '{ IF { UNIT } { DROP } }', '{ DIP { DIP { UNIT } } }', '{ FAILWITH }', '{ COMPARE }', '{ EQ }', '{ { } }', '{ }']
 
 
 def run(ctx):
@@ -872,6 +872,8 @@ def run(ctx):
         add('MAP_C' + p + 'R', ['tag_s'], [v] + extra, annots=['%fld'])
         add('MAP_C' + p + 'R', ['tag_s'], [spine_value(p[:-1])] + extra)
         add('MAP_C' + p + 'R', ['nop'], [])
+        add('MAP_C' + p + 'R', ['nop'], [v] + extra)                  # the identity code: the value comes back unchanged
+        add('MAP_C' + p + 'R', ['nop'], [v])
 
     elines = []
     for nm, an, codes, st, fam, data in sem:
